@@ -541,6 +541,11 @@ mod enc {
         }
     }
 
+    thread_local! {
+        /// evaluate the builder program "… then add one more key and remove it again"
+        pub static ADD_REMOVE: std::cell::Cell<bool> = const { std::cell::Cell::new(false) };
+    }
+
     type CModel = BTreeMap<[u8; 16], (u64, Vec<[u8; 16]>)>;
     type EModel = BTreeMap<[u8; 16], (String, u64)>;
 
@@ -548,12 +553,19 @@ mod enc {
         let mut agg = Agg::default();
         for s in subsets() {
             eval_case(sh, s, &mut agg);
+            // builder programs that take a mapping back: one more key is added and removed again
+            if s == 0 || s == 0xFF || s == 0x5A {
+                ADD_REMOVE.with(|c| c.set(true));
+                eval_case(sh, s, &mut agg);
+                ADD_REMOVE.with(|c| c.set(false));
+            }
         }
         agg
     }
 
     pub fn eval_case(sh: &Shard, s: u8, agg: &mut Agg) {
         let ksp = KeySpace::new(16);
+        let add_remove = ADD_REMOVE.with(std::cell::Cell::get);
         let ccap = ckey_cap(sh.k);
         let fc = sh.fill.count(ccap);
         let fe = sh.fill.count(EKEY_CAP);
@@ -561,8 +573,8 @@ mod enc {
             structure: "encoding",
             group: format!("k={}", sh.k),
             group_of: vec![("encoding-ekey", "-".to_string())],
-            params: format!("fill={},head={:?},tail={:?},order={:?},S={:02x}", sh.fill.name(), sh.head, sh.tail, sh.order, s),
-            wit: json!({"section": "enc", "shard": sh, "s": s}),
+            params: format!("fill={},head={:?},tail={:?},order={:?},S={:02x}{}", sh.fill.name(), sh.head, sh.tail, sh.order, s, if add_remove { ",then-add-and-remove-one-more" } else { "" }),
+            wit: json!({"section": "enc", "shard": sh, "s": s, "add_remove": add_remove}),
         };
         agg.cases += 1;
 
@@ -592,6 +604,16 @@ mod enc {
             for kid in apply_order(epresent.clone(), sh.order) {
                 let (sp, sz) = &emodel[&ek(kid, 0)];
                 b.add_ekey_entry(EKeyEntryData { encoding_key: EncodingKey::from_bytes(ek(kid, 0)), espec: sp.clone(), file_size: *sz });
+            }
+            if add_remove {
+                // keys no window or filler key equals (the key space never produces 0x77 runs)
+                let (xc, xe) = ([0x77u8; 16], [0x78u8; 16]);
+                if !cmodel.contains_key(&xc) && !emodel.contains_key(&xe) {
+                    b.add_ckey_entry(CKeyEntryData { content_key: ContentKey::from_bytes(xc), file_size: 5, encoding_keys: vec![EncodingKey::from_bytes(xe)] });
+                    b.add_ekey_entry(EKeyEntryData { encoding_key: EncodingKey::from_bytes(xe), espec: ESPECS[0].to_string(), file_size: 5 });
+                    b.remove_ckey_entry(&ContentKey::from_bytes(xc));
+                    b.remove_ekey_entry(&EncodingKey::from_bytes(xe));
+                }
             }
             b.build().and_then(|f| f.build())
         });
@@ -957,6 +979,11 @@ mod arch {
         let scratch = if sh.chunked { Some(Scratch::new("c03")) } else { None };
         for s in subsets() {
             eval_case(sh, s, &mut agg, scratch.as_ref());
+            if s == 0 || s == 0xFF || s == 0x5A {
+                super::enc::ADD_REMOVE.with(|c| c.set(true));
+                eval_case(sh, s, &mut agg, scratch.as_ref());
+                super::enc::ADD_REMOVE.with(|c| c.set(false));
+            }
         }
         agg
     }
@@ -967,6 +994,7 @@ mod arch {
     }
 
     pub fn eval_case(sh: &Shard, s: u8, agg: &mut Agg, scratch: Option<&Scratch>) {
+        let add_remove = super::enc::ADD_REMOVE.with(std::cell::Cell::get);
         let ksp = KeySpace::new(sh.ks as usize);
         let r = cap(sh.ks, sh.ow);
         let f = sh.fill.count(r);
@@ -974,8 +1002,8 @@ mod arch {
             structure: "archive-index",
             group: if sh.ks == 16 { "ks=16".to_string() } else { "ks<16".to_string() },
             group_of: Vec::new(),
-            params: format!("ks={},ow={},fill={},head={:?},tail={:?},order={:?},S={:02x}", sh.ks, sh.ow, sh.fill.name(), sh.head, sh.tail, sh.order, s),
-            wit: json!({"section": "arch", "shard": sh, "s": s}),
+            params: format!("ks={},ow={},fill={},head={:?},tail={:?},order={:?},S={:02x}{}", sh.ks, sh.ow, sh.fill.name(), sh.head, sh.tail, sh.order, s, if add_remove { ",then-add-and-remove-one-more" } else { "" }),
+            wit: json!({"section": "arch", "shard": sh, "s": s, "add_remove": add_remove}),
         };
         agg.cases += 1;
         let present = ksp.present(f, sh.head, sh.tail, s);
@@ -991,6 +1019,14 @@ mod arch {
             for i in idxs {
                 let (k, (sz, off)) = model[i].clone();
                 b.add_entry(k, sz, off);
+            }
+            if add_remove {
+                // one more key that no present key equals or is a prefix of, added and removed again
+                let x = vec![0x77u8; sh.ks as usize];
+                if model.iter().all(|e| e.0 != x) {
+                    b.add_entry(x.clone(), 9, 0x100);
+                    b.remove_entry(&x);
+                }
             }
             let mut out = Cursor::new(Vec::new());
             b.build(&mut out).map(|_| out.into_inner())
@@ -2686,6 +2722,7 @@ fn run_section<S: Sync>(name: &str, shards: &[S], deadline: Instant, total: &mut
 fn eval_witness(w: &Value) -> Option<Agg> {
     let case = &w["case"];
     let mut agg = Agg::default();
+    enc::ADD_REMOVE.with(|c| c.set(case["add_remove"].as_bool() == Some(true)));
     match case["section"].as_str()? {
         "enc" => {
             let sh: enc::Shard = serde_json::from_value(case["shard"].clone()).ok()?;
